@@ -61,6 +61,8 @@ impl Monitor for C08 {
                 // result rows repeat when keys are not shown
                 if rng.chance(2, 3) { let keys = sel.group_by.clone().unwrap_or_default(); sel.projs.retain(|(e, _)| !keys.contains(e)); if sel.projs.is_empty() { sel.projs.push((E::Agg("count".into(), false, vec![E::Star]), None)); } }
                 if rng.chance(1, 2) { sel.projs.truncate(2); }
+                // one key shown twice while another key of the grouping is not shown at all (as many key columns as keys, yet rows repeat)
+                if let Some(keys) = sel.group_by.clone() { if keys.len() >= 2 && rng.chance(1, 3) { sel.projs.retain(|(e, _)| !keys.contains(e)); sel.projs.insert(0, (keys[0].clone(), Some("again".into()))); sel.projs.insert(0, (keys[0].clone(), None)); } }
             }
             _ => {
                 // few-valued projections so that tuples repeat
